@@ -174,6 +174,13 @@ def run(F, rep):
                         has_sp = any(c.get('fn') == 'setParent' and render(strip(chain_root(c))) == p0 for c in g.walk() if c.get('k') == 'Call')
                         has_dt = any(c.get('k') == 'Call' and c.get('fn') in ('removeComponentFromEntity', 'removeComponent') and any(y.get('k') == 'Ref' and y.get('n') == p0 for y in walk(c)) for c in g.walk())
                         calls_base = any(c.get('k') == 'Call' and f.key in F.callee_keys(c) for c in g.walk())
+                        # order in the override: the detaching call clears the parent link, so it comes before the new parent is set
+                        from faillog import _can_reach as _cro
+                        sps_ = [c for c in g.walk() if c.get('k') == 'Call' and c.get('fn') == 'setParent' and render(strip(chain_root(c))) == p0]
+                        dts_ = [c for c in g.walk() if c.get('k') == 'Call' and c.get('fn') in ('removeComponentFromEntity', 'removeComponent') and any(y.get('k') == 'Ref' and y.get('n') == p0 for y in walk(c))]
+                        late_ = [(a_, b_) for a_ in sps_ for b_ in dts_ if g.cfg() is not None and _cro(g.cfg(), a_, b_)]
+                        rep.check(not late_, 'C09.P2', '%s|detach-before-attach' % g.short, g.where(late_[0][1]) if late_ else g.where(),
+                                  '%s sets the new parent of `%s` and only then removes it from its previous parent: that removal clears the parent link again' % (g.short, p0), 'detached before the new parent is set')
                         good = good and has_sp and has_dt and calls_base
                         rep.check(has_sp and has_dt and calls_base, 'C09.P1', '%s|override-sets-parent-and-detaches' % g.short, g.where(),
                                   '%s: setParent=%s detach=%s delegates=%s' % (g.short, has_sp, has_dt, calls_base), 'sets parent, detaches from previous parent, then delegates')
